@@ -651,4 +651,50 @@ Section CM.
       destruct (F2 a acc2 m2 Q2) as [E2 _]. pose proof (G1 a Q1) as E1.
       destruct (Hc a) as [SF _]. apply same_fields_empty in SF. congruence.
   Qed.
+
+  (* the flag of state_root_content_lemma on the states BEFORE Stage: the committed leaf of an address names a storage trie
+     iff the account is not empty and either a slot was written in this block under the current barrier or the record
+     names a storage trie already *)
+  Definition named_storage (s : state) (a : N) : Prop :=
+    is_empty (get_account hk hs s a) = false /\
+    (stor_written s a \/ a_sroot (get_account hk hs s a) <> None).
+
+  Lemma named_storage_spec s major minor :
+    SI hk hs s -> SJ s -> SRall hk hs s -> base_ok (st_base s) ->
+    forall a, a_sroot (get_account hk hs (commit_reopen hk hs trimkey s major minor) a) = None <-> ~ named_storage s a.
+  Proof.
+    intros A B C Hb a.
+    destruct (is_empty (get_account hk hs s a)) eqn:E.
+    - destruct (reopen_reads_back_lemma s major minor A B C Hb a) as [RE _]. cbv zeta in RE. destruct (RE E) as [Y _].
+      rewrite Y. split; [intros _ [X _]; rewrite E in X; discriminate|reflexivity].
+    - destruct (staged_sroot_lemma s major minor A B C Hb a E) as [S1 [S2 _]].
+      split.
+      + intros Hn [_ [W|R]].
+        * destruct (S1 W) as [st Hst]. rewrite Hst in Hn. discriminate.
+        * assert (NW : ~ stor_written s a) by (intros W; destruct (S1 W) as [st Hst]; rewrite Hst in Hn; discriminate).
+          rewrite (S2 NW) in Hn. contradiction.
+      + intros Hn.
+        assert (NW : ~ stor_written s a) by (intros W; apply Hn; split; auto).
+        rewrite (S2 NW). destruct (a_sroot (get_account hk hs s a)) eqn:R; auto.
+        exfalso. apply Hn. split; auto. right. rewrite R. discriminate.
+  Qed.
+
+  Theorem state_root_content_pre_lemma base codes ops1 ops2 ma1 mi1 ma2 mi2 :
+    base_ok base -> secure_base base -> Forall state_op ops1 -> Forall state_op ops2 ->
+    let s1 := run_state hk hs ops1 (open base codes) in
+    let s2 := run_state hk hs ops2 (open base codes) in
+    (forall a, same_fields (get_account hk hs s1 a) (get_account hk hs s2 a) /\
+               (forall k, get_raw_storage hk hs s1 a k = get_raw_storage hk hs s2 a k) /\
+               (named_storage s1 a <-> named_storage s2 a)) ->
+    cview (stage hk hs trimkey s1 ma1 mi1) = cview (stage hk hs trimkey s2 ma2 mi2).
+  Proof.
+    intros Hb Hsec H1 H2 s1 s2 Hc.
+    apply state_root_content_lemma; auto. fold s1 s2. intros a.
+    destruct (Hc a) as [F [S N]]. split; auto. split; auto.
+    destruct (reachable_invs base codes ops1 H1) as [A1 [B1 [C1 D1]]]. fold s1 in A1, B1, C1, D1.
+    destruct (reachable_invs base codes ops2 H2) as [A2 [B2 [C2 D2]]]. fold s2 in A2, B2, C2, D2.
+    rewrite (named_storage_spec s1 ma1 mi1 A1 B1 C1 ltac:(rewrite D1; auto) a).
+    rewrite (named_storage_spec s2 ma2 mi2 A2 B2 C2 ltac:(rewrite D2; auto) a).
+    tauto.
+  Qed.
 End CM.
